@@ -148,11 +148,25 @@ func (self *visitorUserNode) decode(bytes []byte, desc *proto.TypeDescriptor) ([
 	default:
 		return nil, newError(meta.ErrUnsupportedType, "the root descriptor must be messageType", nil)
 	}
+	// The root value must be a JSON object, so the document has to end with '}'.
+	// Checking it up front also keeps the native number parser of sonic (v1.13) from reading one byte
+	// behind the buffer, which it does when the input ends with the digit 0 (e.g. truncated input)
+	end := len(bytes)
+	for end > 0 && isJSONSpace(bytes[end-1]) {
+		end--
+	}
+	if end == 0 || bytes[end-1] != '}' {
+		return nil, newError(meta.ErrRead, "the JSON document must be an object", nil)
+	}
 	str := rt.Mem2Str(bytes)
 	if err := ast.Preorder(str, self, nil); err != nil {
 		return nil, err
 	}
 	return self.result()
+}
+
+func isJSONSpace(c byte) bool {
+	return c == ' ' || c == '\t' || c == '\n' || c == '\r'
 }
 
 func (self *visitorUserNode) result() ([]byte, error) {
